@@ -114,7 +114,8 @@ def walk3(c0: str, m1: str, c1: str, fin: bool) -> bool:
     pre: len(c0) <= MAXLEN and len(m1) <= MAXLEN and len(c1) <= MAXLEN
     post: _
     """
-    tick()
+    if tick():
+        return True
     p = [int(x) for x in (PART or "1,1").split(",")]
     independent, steps = bool(p[0]), p[1]
     if excluded("C17.walk3", c0=c0, m1=m1, c1=c1, independent=independent, steps=steps, fin=fin):
@@ -135,7 +136,8 @@ def walk3_err(x0: bool, x1: bool, x2: bool, y0: bool, y1: bool, y2: bool, z0: bo
     pre: True
     post: _
     """
-    tick()
+    if tick():
+        return True
     p = [int(x) for x in (PART or "1,1").split(",")]
     parts = [TEXTS[bits(x0, x1, x2)], TEXTS[bits(y0, y1, y2)], TEXTS[bits(z0, z1, z2)]]
     return _walk(parts, bool(p[0]), p[1], 2 if e0 else 1, False)
@@ -148,7 +150,8 @@ def walk5(c0: str, m1: str, c1: str, m2: str, c2: str, e0: bool) -> bool:
     pre: len(c0) <= 2 and len(m1) <= 2 and len(c1) <= 1 and len(m2) <= 1 and len(c2) <= 1
     post: _
     """
-    tick()
+    if tick():
+        return True
     p = [int(x) for x in (PART or "2,1,0").split(",")]
     return _walk([c0, m1, c1, m2, c2], bool(p[1]), p[0], 1 if e0 else 0, bool(p[2]))
 
@@ -160,7 +163,8 @@ def walk_reach(c0: str, m1: str, c1: str) -> bool:
     pre: len(c0) <= 2 and len(m1) <= 2 and len(c1) <= 2
     post: _
     """
-    tick()
+    if tick():
+        return True
     full = c0 + m1 + c1
     r = Report()
     contextualize_report(full, report=r)
@@ -182,7 +186,8 @@ def pattern_shape() -> bool:
     pre: True
     post: _
     """
-    tick()
+    if tick():
+        return True
     import re._parser as sp
     tree = sp.parse(SEC.DEFAULT_SECTION_PATTERN)
     items = list(tree)
@@ -210,7 +215,8 @@ def tools_in_sections(p0: bool, p1: bool, f0: bool, t0: bool, t1: bool, t2: bool
     pre: True
     post: _
     """
-    tick()
+    if tick():
+        return True
     p, t = bits(p0, p1), bits(t0, t1, t2)
     if p >= len(PROLOGUES) or t >= len(TARGETS):
         return True
